@@ -1122,7 +1122,7 @@ func runParamFlagsNotRewritten(rr *RuleRun) {
 				if sel == nil || sel.Kind() != types.FieldVal {
 					continue
 				}
-				if namedTypeNoPtr(sel.Recv()) != "cty/function.Parameter" {
+				if namedType(sel.Recv()) != "cty/function.Parameter" {
 					continue
 				}
 				n++
